@@ -583,6 +583,23 @@ pub fn corpus(it: &mut Interp) -> Result<Vec<Seed>, Failure> {
     inc.extend_from_slice(&merged.save_after(&d0.get_heads()));
     v.push(Seed { name: "save++save_after", bytes: inc, target: T_LOAD, text: false });
     v.push(Seed { name: "raw_changes", bytes: raw.clone(), target: T_LOAD_INC, text: false });
+    {
+        // a file of Change::bytes(): changes above 256 bytes are DEFLATE-compressed chunks (type 2). One extra change
+        // with a poorly compressible 300-byte value guarantees a compressed chunk whose payload is mostly stored
+        // verbatim, so that single-bit flips still inflate and only the checksum can reject them
+        let mut d = merged.clone().with_actor(ActorId::from(vec![0xC1u8, 4]));
+        let mut rng = Lcg(0x5eed ^ changes.len() as u64);
+        let blob: Vec<u8> = (0..300).map(|_| (rng.next() >> 24) as u8).collect();
+        let mut tx = d.transaction();
+        let _ = tx.put(ROOT, "blob", automerge::ScalarValue::Bytes(blob));
+        tx.commit_with(CommitOptions::default().with_time(0));
+        let mut file = vec![];
+        for c in d.get_changes(&[]) {
+            let mut c = c.clone();
+            file.extend_from_slice(c.bytes().as_ref());
+        }
+        v.push(Seed { name: "compressed_changes", bytes: file, target: T_LOAD, text: false });
+    }
     if let Some(c) = changes.last() {
         v.push(Seed { name: "one_change", bytes: c.raw_bytes().to_vec(), target: T_CHANGE_B, text: false });
         let mut c2 = c.clone();
@@ -1045,7 +1062,7 @@ pub fn check_c14(case: &(Program, u64, u8, bool), t: &mut Tally) -> CaseResult {
     let mut it = run_program(p, default_opts())?;
     let enc_flag = ((p.enc as u32) & 3) << 3;
     let seeds = corpus(&mut it)?;
-    let names = ["save", "save_nocompress", "save++save_after", "bundle_as_document"];
+    let names = ["save", "save_nocompress", "save++save_after", "bundle_as_document", "compressed_changes"];
     let name = names[(*which as usize) % names.len()];
     let Some(s) = seeds.iter().find(|s| s.name == name) else { return Ok(()) };
     let file = &s.bytes;
